@@ -198,9 +198,9 @@ def gen_leaf(sp, rng, ish, kinds=None, cplx=True):
                 C = lin.FFT if k == "fft" else lin.IFFT
                 return C(ish, axes=axes, center=rng.random() < 0.7), k
             if k in ("interp", "nufft"):
-                D = rng.randint(1, min(nd, 2))
+                D = rng.randint(1, min(nd, 3))
                 npts = rng.randint(1, 4)
-                coord = np.array([[rng.uniform(-ish[-D + d] / 2 - 1, ish[-D + d] / 2 + 1) for d in range(D)] for _ in range(npts)])
+                coord = np.array([[coord_val(rng, ish[-D + d]) for d in range(D)] for _ in range(npts)])
                 if k == "interp":
                     wch, pch = [1, 2, 3, 2.5], [0, 1, 2]
                     width = rng.choice(wch) if rng.random() < 0.5 else tuple(rng.choice(wch) for _ in range(D))
@@ -209,10 +209,10 @@ def gen_leaf(sp, rng, ish, kinds=None, cplx=True):
                 return lin.NUFFT(ish, coord, oversamp=rng.choice([1.25, 1.5, 2]), width=rng.choice([3, 4])), k
             if k in ("gridding", "nufft_adj"):
                 # input = batch + points
-                D = rng.randint(1, 2)
+                D = rng.choice([1, 1, 2, 2, 3])
                 npts = ish[-1]
-                grid = [rng.randint(2, 4) for _ in range(D)]
-                coord = np.array([[rng.uniform(-g / 2 - 1, g / 2 + 1) for g in grid] for _ in range(npts)])
+                grid = [rng.randint(2, 4 if D < 3 else 3) for _ in range(D)]
+                coord = np.array([[coord_val(rng, g) for g in grid] for _ in range(npts)])
                 osh = ish[:-1] + grid
                 if k == "gridding":
                     wch, pch = [1, 2, 3, 2.5], [0, 1, 2]
@@ -321,7 +321,7 @@ def gen_tree(sp, rng, depth, ish=None, kinds=None, cplx=True, log=None):
         ops = []
         for _ in range(nops):
             if axis is None:
-                ops.append(gen_tree(sp, rng, depth - 1, ish, kinds, cplx, log))
+                ops.append(noncontig(sp, rng, gen_tree(sp, rng, depth - 1, ish, kinds, cplx, log)))
             else:
                 if not ops:
                     ops.append(gen_tree(sp, rng, depth - 1, ish, kinds, cplx, log))
@@ -392,11 +392,35 @@ def gen_tree(sp, rng, depth, ish=None, kinds=None, cplx=True, log=None):
                 A2 = lin.Resize(o2, A2.oshape) * A2
             else:
                 A2 = lin.Resize(o2, [1] * (ond - 1) + [prod(A2.oshape)]) * lin.Reshape([1] * (ond - 1) + [prod(A2.oshape)], A2.oshape) * A2
+        if oaxis is None:
+            A1, A2 = noncontig(sp, rng, A1), noncontig(sp, rng, A2)
         Dg = lin.Diag([A1, A2], oaxis=oaxis, iaxis=iaxis)
         if list(Dg.ishape) != list(ish):
             Dg = Dg * lin.Reshape(Dg.ishape, ish)
         return Dg
     raise AssertionError(c)
+
+
+def coord_val(rng, n):
+    """one sampling coordinate for an axis of length n: generic, or sitting exactly on the ties of the kernel window
+    (integer / half-integer / quarter positions: ceil and floor of k -+ W/2 coincide with grid points there)"""
+    kind = rng.choice(["uniform", "uniform", "int", "half", "quarter"])
+    if kind == "uniform":
+        return rng.uniform(-n / 2 - 1, n / 2 + 1)
+    base = rng.randint(-(n // 2) - 1, n // 2 + 1)
+    return float(base) + {"int": 0.0, "half": 0.5, "quarter": rng.choice([0.25, 0.75])}[kind]
+
+
+def noncontig(sp, rng, A):
+    """with probability 0.4 make the operator's OUTPUT a non-contiguous view (ends in a Transpose): flattening stacks
+    must read it in logical (C) order, not in memory order"""
+    osh = list(A.oshape)
+    if len(osh) < 2 or prod(osh) < 2 or rng.random() >= 0.4:
+        return A
+    perm = list(range(len(osh)))
+    while perm == list(range(len(osh))):
+        rng.shuffle(perm)
+    return sp.linop.Transpose(osh, perm) * A
 
 
 def gen_malformed(sp, rng):
